@@ -56,7 +56,7 @@ def knapsack(values: ArrayLike,
     x = [obj.add_variable(f'x_{i}') for i in range(values.shape[0])]
 
     for i, value in enumerate(values):
-        obj.set_linear(x[i], -value)
+        obj.set_linear(x[i], -float(value))
 
     model.set_objective(obj)
     constraint = [(x[i], weight) for i, weight in enumerate(weights)] + [(-capacity, )]
@@ -107,11 +107,11 @@ def quadratic_knapsack(
     x = [obj.add_variable(f'x_{i}') for i in range(profits.shape[0])]
 
     for i, value in enumerate(values):
-        obj.set_linear(x[i], -value)
+        obj.set_linear(x[i], -float(value))
 
     for i, profit in np.ndenumerate(profits):
         if i[0] < i[1]:
-            obj.set_quadratic(x[i[0]], x[i[1]], -profit)
+            obj.set_quadratic(x[i[0]], x[i[1]], -float(profit))
 
     model.set_objective(obj)
     constraint = [(x[i], weight) for i, weight in enumerate(weights)] + [(-capacity, )]
